@@ -95,6 +95,7 @@ def run_shard(args):
                 return
             out["evaluations"] += 1
             rec = Recorder()
+            rec._matcher = lambda tg: match_known(prop_id, sub_name, tg, findings)
             try:
                 sub.check(case, rec)
             except Violation as v:
@@ -123,6 +124,8 @@ def run_shard(args):
                         out["disc"][k] = r
                 for k in rec.excluded:
                     out["excluded"][k] = out["excluded"].get(k, 0) + 1
+                for k, _m in rec.known:
+                    out["known_hits"][k] = out["known_hits"].get(k, 0) + 1
 
         sd = derive_seed(vseed, prop_id, sub_name, shard)
         test = given(sub.gen(tier))(body)
@@ -160,13 +163,17 @@ def run_shard(args):
 def replay_case(mod, sub_name, case, findings):
     """Run one stored case; returns (status, message, tags)."""
     sub = find_sub(mod, sub_name)
+    rec = NullRecorder()
+    rec._matcher = lambda tg: match_known(mod.ID, sub_name, tg, findings)
     try:
-        sub.check(case, NullRecorder())
+        sub.check(case, rec)
     except Violation as v:
         key = match_known(mod.ID, sub_name, v.tags, findings)
         if key is not None:
             return "known", v.msg, key
         return "violation", v.msg, v.tags
+    if rec.known:
+        return "known", rec.known[0][1], rec.known[0][0]
     return "ok", "", None
 
 
@@ -288,25 +295,20 @@ def main():
             continue
         n_probe += 1
         try:
-            sub = find_sub(mod, pr["sub"])
-            try:
-                sub.check(pr["case"], NullRecorder())
-            except Violation as v:
-                key = match_known(prop_id, pr["sub"], v.tags, findings)
-                if key == kf["key"]:
-                    known_lines[kf["key"]] = kf.get("what", v.msg)
-                elif key is not None:
-                    known_lines[key] = v.msg
-                else:
-                    violations.append(
-                        {
-                            "sub": pr["sub"],
-                            "case": pr["case"],
-                            "message": "probe of known finding "
-                            f"{kf['key']} fails differently: {v.msg}",
-                            "tags": jsonable(v.tags),
-                        }
-                    )
+            status, msg, info = replay_case(mod, pr["sub"], pr["case"], findings)
+            if status == "known":
+                kk = next((f for f in findings if f.get("key") == info), {})
+                known_lines[info] = kk.get("what", msg)
+            elif status == "violation":
+                violations.append(
+                    {
+                        "sub": pr["sub"],
+                        "case": pr["case"],
+                        "message": "probe of known finding "
+                        f"{kf['key']} fails differently: {msg}",
+                        "tags": jsonable(info),
+                    }
+                )
         except Exception:  # noqa: BLE001
             errors.append(f"probe {kf['key']}: " + traceback.format_exc())
 
